@@ -91,6 +91,12 @@ def corpus(tier):
     for prefix in (1, 128, 8192, 24580, 24581):
         out.append(pair_plan(24581, prefix=prefix))
         out.append(pair_plan(24581, prefix=prefix, faults=[{'kind': 'cut_file', 'attempt': 0, 'byte': 5}]))
+    # the partial file shrinks or vanishes between two attempts
+    for size, byte in ((8193, 6000), (24581, 20000), (204800, 150000)):
+        for to in (0, 1000, 'delete'):
+            for lim in (0, 64):
+                out.append(pair_plan(size, limit_down=lim, faults=[{'kind': 'cut_file', 'attempt': 0, 'byte': byte},
+                                                                   {'kind': 'truncate_local', 'attempt': 0, 'to': to}]))
     out.append(pair_plan(8193, limit_up=64))
     out.append(pair_plan(8193, limit_down=64, faults=[{'kind': 'cut_file', 'attempt': 0, 'byte': 4000}]))
     out.append(pair_plan(300, limit_up=1, limit_down=1))
@@ -175,6 +181,8 @@ def generate(rng, index, tier):
     elif regime < 0.8:
         for a in range(rng.randint(2, 3)):
             faults.append({'kind': 'cut_file', 'attempt': a, 'byte': _cut_pos(rng, size)})
+        if rng.random() < 0.3:
+            faults.append({'kind': 'truncate_local', 'attempt': 0, 'to': rng.choice([0, 1, 127, 'delete'])})
     elif regime < 0.9:
         faults.append({'kind': 'reset_p', 'when': rng.choice(('after_queue', 'after_request', 'after_reply'))})
         if rng.random() < 0.5:
@@ -356,6 +364,23 @@ def _run_pair(world: World, plan):
             if f['kind'] == 'cut_file' and f.get('armed') and f['conn'].reset_done:
                 f['done'] = True
                 last_fault[0] = loop.time()
+            elif f['kind'] == 'truncate_local':
+                # once the cut of that attempt has happened and the download has noticed, the partial file loses its tail
+                # (or goes away): the next attempt has to resume at what is really there
+                cut = [c for c in faults if c['kind'] == 'cut_file' and c.get('attempt') == f.get('attempt')]
+                tr = down.transfer
+                if cut and cut[0].get('done') and tr is not None and tr.local_path and \
+                        tr.state.VALUE.name in ('INCOMPLETE', 'QUEUED') and os.path.isfile(tr.local_path):
+                    f['done'] = True
+                    down.last_size = 0          # the harness shrinks the file itself: "keeps the received prefix" restarts here
+                    cur = os.path.getsize(tr.local_path)
+                    if f.get('to') == 'delete':
+                        os.unlink(tr.local_path)
+                        fired['local_file_deleted'] += 1
+                    else:
+                        os.truncate(tr.local_path, min(int(f.get('to', 0)), cur))
+                        fired['local_file_truncated'] += 1
+                    last_fault[0] = loop.time()
             elif f['kind'] == 'partition_file' and f.get('armed') and not f.get('held'):
                 if f['rec']['delivered'] >= f['byte']:
                     f['held'] = True
